@@ -142,7 +142,10 @@ func (la *ShareAvailability) SharesAvailable(ctx context.Context, header *header
 
 	smpls, errGetSamples := la.getter.GetSamples(samplingCtx, header, idxs)
 	if len(smpls) == 0 {
-		return share.ErrNotAvailable
+		// Nothing was retrieved. Treat every requested sample as failed instead of returning
+		// early, so that the selected coordinates are persisted and stay pending: a retry (or
+		// a restarted node) must ask for the same coordinates and not draw new ones.
+		smpls = make([]shwap.Sample, len(idxs))
 	}
 
 	var failedSamples []shwap.SampleCoords
